@@ -49,7 +49,9 @@ SPEC = {
                  "C20_stopped_ctx_before_return", "C20_stopped_monotone", "C20_stopped_observations",
                  "C20_wrappers_forward_all_arguments", "C20_driver_step_sound", "C20_shutdown_terminates",
                  "C20_handler_shutdownandwait_selfwait_witness", "C20_no_waitgroup_add_after_stop",
-                 "C20_skeleton_type_Daemon", "C20_skeleton_type_WorkerFunc", "C20_refused_only_when_stopped"] + ["C20_decisions_" + m for m in (
+                 "C20_skeleton_type_Daemon", "C20_skeleton_type_WorkerFunc", "C20_refused_only_when_stopped",
+                 "C20_run_repaired_example", "C20_bw_window_repaired_example", "C20_skeleton_Shutdown", "C20_skeleton_ShutdownAndWait",
+                 "C20_skeleton_getWorkersAndShutdownOrder", "C20_skeleton_clear"] + ["C20_decisions_" + m for m in (
                      "GetRunningBackgroundWorkers", "getWorkersAndShutdownOrder", "runBackgroundWorker", "BackgroundWorker", "DebugLogger", "Start", "Run", "shutdown", "stopWorkers", "cleanupWorker", "removeWorkerFromShutdownOrder", "clear", "Shutdown", "ShutdownAndWait", "IsRunning", "IsStopped", "ContextStopped")],
     "trusted_base": [
         "hand-written protocol model Hive/Model/Daemon.lean of app/daemon/daemon.go (critical sections of d.lock atomic; "
